@@ -4,6 +4,7 @@
 the outcome in meta.json. Usage: run_seeds.py [seed-dir-name ...]  (default: all)"""
 import json, os, subprocess, sys, re, glob
 REPO=os.environ.get('SEED_REPO','/repo')
+SEED_DIR=os.environ.get('SEED_DIR','/verif/seeded')
 ENV=dict(os.environ, GOFLAGS='-mod=mod', GOPROXY='off', VERIF_REPO=REPO)
 def sh(cmd, cwd=REPO, timeout=1800):
     p=subprocess.run(cmd, shell=True, cwd=cwd, env=ENV, capture_output=True, text=True, timeout=timeout)
@@ -20,13 +21,16 @@ def run_demo(meta, d):
     demo=os.path.join(d, meta.get('demo','demo_test.go'))
     dst=os.path.join(REPO, meta.get('demo_dir','.'), 'zz_demo_test.go')
     subprocess.run(['cp',demo,dst])
-    rc,out=sh("go test -vet=off -count=1 -timeout 10m -run '%s' ./%s"%(meta['demo_run'], meta.get('demo_dir','.')))
+    if meta.get('demo_cmd'):
+        rc,out=sh(meta['demo_cmd'])   # e.g. the tinywasm variant needs an explicit file list
+    else:
+        rc,out=sh("go test -vet=off -count=1 -timeout 10m -run '%s' ./%s"%(meta['demo_run'], meta.get('demo_dir','.')))
     os.remove(dst)
     return rc, out[-1500:]
-names=sys.argv[1:] or sorted(os.path.basename(p) for p in glob.glob('/verif/seeded/S*'))
+names=sys.argv[1:] or sorted(os.path.basename(p) for p in glob.glob(SEED_DIR+'/*') if os.path.isdir(p))
 assert sh("git status --porcelain --untracked-files=no")[1].strip()=='' , REPO+' is not clean'
 for n in names:
-    d='/verif/seeded/'+n
+    d=SEED_DIR+'/'+n
     meta=json.load(open(d+'/meta.json'))
     prop=meta['property']
     print('=====',n,prop,flush=True)
@@ -40,6 +44,11 @@ for n in names:
         bad=stable_ok()
         crc,cout=sh("./check %s quick"%prop, cwd='/verif')
         viol=[l for l in cout.split('\n') if l.startswith('VIOLATION')]
+        also={}
+        for q in meta.get('also_check',[]):
+            qrc,qout=sh("./check %s quick"%q, cwd='/verif')
+            also[q]=sorted(set(re.search(r'obligation=(\S+)',l).group(1) for l in qout.split('\n') if l.startswith('VIOLATION')))
+        if also: meta['also_violated']=also
     finally:
         sh("git checkout -- . && git clean -fdq -e 'root*' -e gtreetest")
     obl=[re.search(r'obligation=(\S+)',v).group(1) for v in viol]
